@@ -208,7 +208,7 @@ class Check:
         self.solver_s += dt
         return r, (s.model() if r == z3.sat else None), dt
 
-    def oblige(self, oid, path, violation, desc='', lemmas=(), site='', abstract=False):
+    def oblige(self, oid, path, violation, desc='', lemmas=(), site='', abstract=False, native_pred=None, nice=()):
         """The property holds on `path` unless `violation` (z3 Bool / bool) is satisfiable under the path condition.
         abstract=True: first try the query with every product of variables replaced by a fresh integer constrained only by sign and
         by monotonicity between squares (an over-approximation: unsat there implies unsat of the exact query); fall back to the exact query."""
@@ -239,7 +239,7 @@ class Check:
         if r == z3.unsat: return 'unsat'
         if r == z3.unknown:
             self.inconclusive.append('%s: solver returned unknown (%.1fs)' % (oid, dt)); return 'unknown'
-        self._violation(oid, desc, path, model, site, rec)
+        self._violation(oid, desc, path, model, site, rec, native_pred=native_pred, retry=(conds + [violation], list(nice)))
         return 'sat'
 
     def expect_sat(self, oid, path, cond, desc=''):
@@ -250,7 +250,7 @@ class Check:
             self.inconclusive.append('%s: cover query is %s — the obligation would be vacuous' % (oid, r))
         return r == z3.sat
 
-    def _violation(self, oid, desc, path, model, site, rec):
+    def _violation(self, oid, desc, path, model, site, rec, native_pred=None, retry=None):
         key = site or path.short()
         for k in self.known:
             if k.get('property') == self.pid and (k.get('obligation') == oid or (k.get('prefix') and oid.startswith(k['obligation']))) and (not k.get('site') or k['site'] == key) \
@@ -267,7 +267,37 @@ class Check:
             return
         fn = os.path.join(REPLAYS, '%s-%d.json' % (self.pid, n))
         confirmed = None; native = None
-        if path.steps and not os.environ.get('VERIF_NO_REPLAY'):
+        if native_pred is not None and path.steps and not os.environ.get('VERIF_NO_REPLAY'):
+            # the path was explored with stubbed kernels (uninterpreted functions): the interpreter's prediction is not comparable with a
+            # native run, so the violation is confirmed by evaluating the obligation's own predicate on the REAL outputs for concrete inputs
+            from . import replay
+            cands = [model]
+            if retry:
+                base, nice = retry
+                for extra_seed in (0, 1, 2):
+                    if not nice: break
+                    s0 = self.seed; self.seed = s0 + 101 * extra_seed
+                    try: r2, m2, _ = self.solve(base + nice, 20000)
+                    finally: self.seed = s0
+                    if r2 == z3.sat: cands.insert(0, m2)
+                    elif os.environ.get('VERIF_TRACE'): print('nice candidate search:', r2, file=sys.stderr)
+            tried = []
+            for m in cands[:4]:
+                try:
+                    scs = [replay.scenario(path.prog, st.scenario, m) for st in path.steps]
+                    reals = replay.run_scenarios([sc for sc, _ in scs])
+                    ok = bool(native_pred(reals, [sc for sc, _ in scs]))
+                except Exception as e:
+                    tried.append(dict(error=repr(e))); continue
+                tried.append(dict(scenarios=[sc for sc, _ in scs], reals=reals, manifests=ok))
+                if ok:
+                    confirmed = True; model = m; native = tried[-1]; break
+            if not confirmed:
+                self.inconclusive.append('%s: the solver counterexample (stubbed kernels) did not manifest natively on %d candidate inputs (%s)' % (oid, len(tried), fn))
+                rec['replay_confirmed'] = False
+                json.dump(dict(property=self.pid, obligation=oid, desc=desc, native=tried), open(fn, 'w'), indent=1, default=str)
+                return
+        elif path.steps and not os.environ.get('VERIF_NO_REPLAY'):
             from . import replay
             native = []; confirmed = True
             try:
